@@ -28,6 +28,21 @@ pub fn scenarios() -> Vec<Scenario> {
 
 pub fn gen(rng: &mut Rng, tier: Tier, idx: u64) -> Case {
     let mut c = hostile_case(rng, tier, idx, "C12", "c12-invariants", 50);
+    // a will payload flagged as UTF-8 that is cut inside a character at the maximum length (and at
+    // a few other lengths), as a client truncating an over-long will message would produce
+    if let Some(crate::ast::Ast::Connect(cn)) = c.packets.first_mut() {
+        if let Some(w) = cn.will.as_mut() {
+            let flagged = w.props.iter().any(|(id, v)| *id == 0x01 && *v == crate::ast::PVal::Byte(1));
+            if flagged && rng.chance(1, 3) && !crate::gen::tiny() {
+                let n = *rng.pick(&[65_535usize, 65_534, 1024, 300]);
+                let mut pl = vec![b'w'; n];
+                let tail: &[u8] = if rng.bool() { &[0xE4, 0xBD] } else { &[0xF0] };
+                pl[n - tail.len()..].copy_from_slice(tail);
+                w.payload = Bs(pl);
+                c.mutations.clear();
+            }
+        }
+    }
     // the boundary between two adjacent strings moved into the middle of a code point
     if !c.packets.is_empty() && rng.chance(1, 5) {
         let mut a = c.packets[0].clone();
